@@ -90,8 +90,16 @@ func c05objWitness(name, shape string) *c05.Package {
 }
 
 // c05probes builds each witness package; a switch is on when a witness does not compile.
-func c05probes(res *hx.Result, env *c05.Env) map[string]bool {
+func c05probes(res *hx.Result, env *c05.Env) (map[string]bool, c05.Outcome) {
 	ws := c05witnesses()
+	ow := c05overWitness()
+	var over c05.Outcome
+	var owg sync.WaitGroup
+	owg.Add(1)
+	go func() {
+		defer owg.Done()
+		over = env.Run(ow.Name, ow, 7, 2, false)
+	}()
 	outs := make([]c05.Outcome, len(ws))
 	var wg sync.WaitGroup
 	sem := make(chan struct{}, 8)
@@ -124,10 +132,72 @@ func c05probes(res *hx.Result, env *c05.Env) map[string]bool {
 			}
 		}
 	}
+	owg.Wait()
+	on, d, other := c05overVerdict(ow, over)
+	sw["result_over_4096"], detail["result_over_4096"] = on, d
+	if other != "" {
+		res.Fail("probe", fmt.Sprintf("IDL package (%s):\n%s-- %s", ow.String(), ow.Text(), other))
+	}
 	for k, on := range sw {
 		res.Switch(k, on, detail[k])
 	}
-	return sw
+	return sw, over
+}
+
+// c05overWitness: lists and maps one entry beyond the bound of the reflection decoder
+// (finding refl_list_over_4096 of C03), as arguments and as results of generated methods.
+func c05overWitness() *c05.Package {
+	u8 := c05.Sc("uint8")
+	l, m := c05.Vec(u8), c05.MapOf(c05.Sc("uint16"), u8)
+	p := &c05.Package{Name: "w21", Stream: "probe", Sizes: "4097", Ifaces: []*c05.Iface{{Name: "A", Actions: []*c05.Action{
+		{Kind: "fn", Name: "f", Params: []c05.Param{{Name: "a", T: l}}, Ret: l},
+		{Kind: "fn", Name: "g", Params: []c05.Param{{Name: "a", T: m}}, Ret: m},
+	}}}}
+	p.Number()
+	return p
+}
+
+// c05overVerdict: on = with 4097 entries the arguments reach the implementation unchanged and
+// the stub answers with the documented encoding of the result, which the proxy then refuses
+// (exactly the recorded weakness).  Anything else that goes wrong is reported in other.
+func c05overVerdict(p *c05.Package, o c05.Outcome) (on bool, detail, other string) {
+	if e := o.GenErr + o.BuildErr + o.RunErr; e != "" {
+		return false, "", "the witness package of result_over_4096 cannot be driven: " + e
+	}
+	var first c05.Outcome
+	sized := 0
+	for _, r := range o.Records {
+		if r.Note == "" {
+			first.Records = append(first.Records, r)
+			continue
+		}
+		sized++
+		refused := r.Kind == "fn" && r.Err != "" && len(r.Legs) == 2 && r.Legs[0].ValueOK && r.Legs[0].Seen && r.Legs[1].Seen && r.Legs[1].BytesOK
+		switch k, d := c05recordFailure(r); {
+		case refused:
+			on = true
+			if detail == "" {
+				detail = fmt.Sprintf("a result with 4097 entries. IDL: %s -- %s", strings.ReplaceAll(strings.TrimSpace(p.Text()), "\n", " | "), d)
+			}
+		case k != "":
+			other = k + ": " + d
+		}
+	}
+	if k, d := c05failure(p, first); k != "" {
+		other = k + ": " + d
+	}
+	if sized != 2 && other == "" {
+		other = fmt.Sprintf("%d records with 4097 entries for 2 methods", sized)
+	}
+	return on, detail, other
+}
+
+// c05overCases: the passages of the witness as correspondence cases; a refused result is a
+// case of kind 3 (the model's reflection decoder refuses it as well).
+func c05overCases(res *hx.Result, cs *hx.Cases, o c05.Outcome) {
+	for _, r := range o.Records {
+		c05addCases(res, cs, "w21", r, r.Note != "" && r.Err != "")
+	}
 }
 
 // ---------- correspondence cases ----------
@@ -144,14 +214,43 @@ func c05cases(res *hx.Result, outdir string, sw map[string]bool) *hx.Cases {
 	return cs
 }
 
-func c05addCases(res *hx.Result, cs *hx.Cases, j *c05job, r c05rt.Record) {
+// c05addCases: refused = the call failed although the reply arrived (results become kind 3).
+func c05addCases(res *hx.Result, cs *hx.Cases, id string, r c05rt.Record, refused bool) {
+	note := ""
+	if r.Note != "" {
+		note = " [" + r.Note + "]"
+	}
 	for _, l := range r.Legs {
 		res.Dist("leg:" + l.What)
 		if !l.Seen {
 			continue // no frame was observed: nothing to compare (the oracle has spoken)
 		}
-		cs.Add("cases", fmt.Sprintf("{| k_kind := %d; k_tys := %s; k_vals := %s; k_bytes := %s |}",
-			l.Kind, hx.List(l.Tys), hx.List(l.Vals), "\""+l.Bytes+"\"%string"),
-			fmt.Sprintf("package %s %s %s.%s leg %s sig=%s values=%s", j.id, r.Kind, r.Iface, r.Name, l.What, strings.Join(l.Sigs, " "), l.Canon))
+		if l.NoModel {
+			res.Dist("leg-too-large-for-a-case")
+			continue
+		}
+		if l.InSeq {
+			continue // a step of the sequence case below
+		}
+		kind := l.Kind
+		if refused && kind == 1 {
+			kind = 3
+		}
+		canon := l.Canon
+		if len(canon) > 300 {
+			canon = canon[:300] + "..."
+		}
+		cs.Add("cases", fmt.Sprintf("{| k_kind := %d; k_tys := %s; k_vals := %s; k_bytes := %s; k_seq := [] |}",
+			kind, hx.List(l.Tys), hx.List(l.Vals), "\""+l.Bytes+"\"%string"),
+			fmt.Sprintf("package %s %s %s.%s%s leg %s sig=%s values=%s", id, r.Kind, r.Iface, r.Name, note, l.What, strings.Join(l.Sigs, " "), canon))
+	}
+	if len(r.Seq) > 0 {
+		steps := make([]string, len(r.Seq))
+		for i, s := range r.Seq {
+			steps[i] = fmt.Sprintf("{| s_op := %d; s_id := %d; s_ty := %s; s_val := %s; s_bytes := \"%s\"%%string |}", s.Op, s.ID, s.Ty, s.Val, s.Bytes)
+		}
+		res.Dist("sequence-cases")
+		cs.Add("cases", fmt.Sprintf("{| k_kind := 4; k_tys := []; k_vals := []; k_bytes := \"\"%%string; k_seq := %s |}", hx.List(steps)),
+			fmt.Sprintf("package %s sequence on %s: %s", id, r.Iface, strings.Join(r.Trace, "; ")))
 	}
 }
